@@ -58,6 +58,13 @@ type RecBucket struct {
 	// announce its completion on Stepped (buffered): the actor behind this bucket is single-stepped.
 	Permit  chan struct{}
 	Stepped chan struct{}
+	// CancelAt/Cancel: graceful shutdown. The mutating operation with index CancelAt (counting
+	// mutating operations only) calls Cancel - which cancels the owner's root context - and
+	// returns context.Canceled without effect; every later call made with the cancelled context
+	// fails the same way (see the ctx checks), calls made with a fresh context go through.
+	CancelAt int
+	Cancel   func()
+	mutN     int
 	// LexIter makes Iter hand out the entries in plain lexicographic order (as S3, GCS, Azure
 	// list them: "chunks/" before "index"); the in-memory bucket lists files before directories.
 	LexIter   bool
@@ -68,7 +75,7 @@ type RecBucket struct {
 }
 
 func NewRecBucket(inner *objstore.InMemBucket) *RecBucket {
-	return &RecBucket{inner: inner, CrashAt: -1, FailAt: -1, crashedCh: make(chan struct{}), release: make(chan struct{})}
+	return &RecBucket{inner: inner, CrashAt: -1, FailAt: -1, CancelAt: -1, crashedCh: make(chan struct{}), release: make(chan struct{})}
 }
 
 // Arm resets the op log and counters and sets the fault points for the next action.
@@ -160,6 +167,19 @@ func (b *RecBucket) gate(mut bool) int {
 	return 0
 }
 
+// shutdownNow counts a mutating operation and tells whether it is the one at which the owner shuts down.
+func (b *RecBucket) shutdownNow() bool {
+	b.mu.Lock()
+	idx := b.mutN
+	b.mutN++
+	hit := b.CancelAt >= 0 && idx == b.CancelAt
+	b.mu.Unlock()
+	if hit && b.Cancel != nil {
+		b.Cancel()
+	}
+	return hit
+}
+
 func (b *RecBucket) record(o Op) {
 	if o.Mut && !o.Err {
 		o.Snap = b.inner.Objects()
@@ -177,6 +197,9 @@ func (b *RecBucket) Upload(ctx context.Context, name string, r io.Reader, opts .
 		return err
 	}
 	body, rerr := io.ReadAll(r)
+	if b.shutdownNow() {
+		return context.Canceled
+	}
 	switch b.gate(true) {
 	case 2:
 		return ErrCrashed
@@ -197,6 +220,9 @@ func (b *RecBucket) Upload(ctx context.Context, name string, r io.Reader, opts .
 func (b *RecBucket) Delete(ctx context.Context, name string) error {
 	if err := ctx.Err(); err != nil {
 		return err
+	}
+	if b.shutdownNow() {
+		return context.Canceled
 	}
 	switch b.gate(true) {
 	case 2:
